@@ -187,6 +187,11 @@ def attribute(diag, g, gen_file):
                 detail["text"] = s["text"]
                 if i.get("srcline"):
                     detail["src"] = "%s:%d" % (i.get("src"), i["srcline"])
+        # ... and to every property whose proof uses the callee's guarantees: those hold only if its precondition holds at each call
+        if clause_span is not None:
+            for x in (clause_span[1].get("props") or []):
+                if x not in props:
+                    props.append(x)
     elif kind == "invariant":
         name = clause_span[1]["ord"] if clause_span is not None else "invariant"
         if clause_span is not None:
